@@ -44,6 +44,7 @@ NB_PEG = [
     ('nb_peg', 'nb_peg_repnoprogress', 'PUSH(a) ~ PUSH(a)? ~ DROP{2} ~ b ~ PEEK_ALL (an element that consumes no input); all strings<=7 chars over {a,b,c}', 'q'),
     ('nb_peg', 'nb_peg_repnullable', '(a*){2,3} ~ PUSH(b)? ~ DROP{1,2} (an element that may match the empty string); all strings<=7 chars over {a,b,c}', 'q'),
     ('nb_peg', 'nb_peg_skippush', 'implicit skip rule that pushes before it can fail: skip = (PUSH(b) ~ c)*; PUSH(a) ~ a ~ PEEK_ALL with that skip; all strings<=7 chars over {a,b,c}', 'q'),
+    ('nb_peg', 'nb_peg_repasskip', 'a bounded repetition as the skip node (RepeatMinMax<_,0,1> NeverFailedTypedNode impl): a ~ b ~ a; all strings<=8 chars over {a,b,blank}', 'q'),
 ]
 NB_PEG = [(t[0], t[1], t[2], 'Q') for t in NB_PEG] + [(t[0], t[1], t[2] + ' — bound raised by 3 characters', 't', {'VERIF_NB_EXTRA': '3'}) for t in NB_PEG]
 NB_PEG_STACK = [t for t in NB_PEG if t[1] in ('nb_peg_push_pop', 'nb_peg_pred', 'nb_peg_rep_choice', 'nb_peg_slice', 'nb_peg_bal', 'nb_peg_optpush', 'nb_peg_reppush', 'nb_peg_repbal', 'nb_peg_predmut', 'nb_peg_repminfail', 'nb_peg_repmmfail', 'nb_peg_repnoprogress', 'nb_peg_repnullable', 'nb_peg_skippush')]
@@ -58,7 +59,9 @@ NB_GEN_SKIPTOK = ('derive:nb_gen', 'nb_gen_skip_tokens', 'generated parser vs pe
 NB_GEN_SKIP_ONLY = ('derive:nb_gen', 'nb_gen_skip_only', 'generated parser vs pest, grammars defining ONLY a non-silent WHITESPACE / ONLY a non-silent COMMENT (own generator arms): 4 rules each x all strings<=7 chars over {a,b,comma,blank}', 'q')
 NB_GEN_UNOPT = ('derive:nb_gen', 'nb_gen_unoptimized', 'parser generated with #[pest_optimizer = false] (second generator path, graph/rule.rs) vs pest: 16 rules (atomicity nesting, skips, stack) x all strings<=5 chars over 2 alphabets', 'q')
 NB_GEN_UNOPT_PLUS = ('derive:nb_gen', 'nb_gen_unopt_plus', 'a+ generated with #[pest_optimizer = false] vs pest under implicit skipping: all strings<=5 chars over {a,blank} (finding D8)', 'q')
+NB_GEN_NO_NORMAL = ('derive:nb_gen', 'nb_gen_no_normal_rule', 'generated parser vs pest on a grammar without any plain normal rule (only _ @ $ ! kinds): 4 rules x all strings<=6 tokens', 'q')
 NB_GEN_COMMENT_INNER = ('derive:nb_gen', 'nb_gen_comment_inner', 'non-silent COMMENT mentioning a non-silent rule: all strings<=5 tokens', 'q')
+NB_BUILTIN_ALT = ('nb_peg', 'nb_builtin_alternatives', 'built-in ASCII rules on every ASCII character: accepted set, reported character / alternative vs the definitions in pest', 'q')
 NB_LEAF = ('nb_peg', 'nb_leaf_contents', 'leaf contents on all strings<=3 chars over 10 characters (1-4 bytes, CR, LF)', 'q')
 NB_GEN_SUB = ('derive:nb_gen', 'nb_gen_subinput', 'generated parser: 22 entry rules x all strings<=4 chars over 2 alphabets x all sub-ranges (Span/Position vs fresh copy)', 'Q')
 NB_MATCHERS = ('nb_input', 'nb_matchers', 'every default matcher on all strings<=3 chars x all spans x 3 cursors; match_string / match_insensitive on all 128x128 ASCII pairs', 'q')
@@ -83,7 +86,7 @@ PROPS = {
         'verus': ['comb', 'choice', 'nodes', 'slices', 'slicefn', 'seqchk', 'seqpar', 'repchk', 'reppar', 'wrappers', 'leaf', 'input'],
         'expanded': True,
         'kani': K_PEG,
-        'native': NB_PEG + [NB_PEG_D1, NB_GEN, NB_GEN_T, NB_GEN_SKIPTOK, NB_GEN_SKIP_ONLY, NB_GEN_UNOPT, NB_GEN_UNOPT_PLUS, NB_MATCHERS],
+        'native': NB_PEG + [NB_PEG_D1, NB_GEN, NB_GEN_T, NB_GEN_SKIPTOK, NB_GEN_SKIP_ONLY, NB_GEN_UNOPT, NB_GEN_NO_NORMAL, NB_GEN_UNOPT_PLUS, NB_MATCHERS],
         'assumptions': ['sem (PEG denotation with full backtracking, failing empty-stack operations) is pest\'s behaviour where pest is defined',
                         'generator translation of the grammar into the combinator type tree is not verified (DESIGN.md §6)'],
     },
@@ -95,7 +98,7 @@ PROPS = {
         'verus': ['comb', 'choice', 'seqpar', 'reppar'],
         'expanded': True,
         'kani': [],
-        'native': [NB_GEN, NB_GEN_T, NB_GEN_SKIPTOK, NB_GEN_SKIP_ONLY, NB_GEN_UNOPT, NB_GEN_COMMENT_INNER],
+        'native': [NB_GEN, NB_GEN_T, NB_GEN_SKIPTOK, NB_GEN_SKIP_ONLY, NB_GEN_UNOPT, NB_GEN_NO_NORMAL, NB_GEN_COMMENT_INNER],
         'explanation': 'Every (rule, input) pair within the bound is parsed by the pest-generated and the pest-typed-generated parser; trees are compared after pruning atomic tokens in the pest tree. obligations/discharged are zero: nothing is proved beyond the bound.',
         'assumptions': ['pest is the reference'],
     },
@@ -107,7 +110,7 @@ PROPS = {
         'verus': ['comb', 'choice', 'nodes', 'slices', 'slicefn', 'seqchk', 'seqpar', 'repchk', 'reppar', 'wrappers', 'leaf', 'rules'],
         'expanded': True,
         'kani': K_PEG,
-        'native': NB_PEG + [NB_GEN, NB_GEN_T, NB_GEN_SKIPTOK, NB_GEN_SKIP_ONLY, NB_GEN_UNOPT, NB_GEN_SUB, NB_GEN_SUB_T],
+        'native': NB_PEG + [NB_GEN, NB_GEN_T, NB_GEN_SKIPTOK, NB_GEN_SKIP_ONLY, NB_GEN_UNOPT, NB_GEN_NO_NORMAL, NB_GEN_SUB, NB_GEN_SUB_T],
         'assumptions': ['R1 (tracker erasure) is behaviour-preserving for match/offset/stack results'],
     },
     'C04': {
@@ -159,7 +162,7 @@ PROPS = {
         'verus': ['seqchk', 'seqpar', 'repchk', 'reppar', 'wrappers', 'rules'],
         'expanded': True,
         'kani': K_PEG,
-        'native': NB_PEG + [NB_GEN, NB_GEN_T, NB_GEN_SKIPTOK, NB_GEN_SKIP_ONLY, NB_GEN_UNOPT, NB_GEN_UNOPT_PLUS],
+        'native': NB_PEG + [NB_GEN, NB_GEN_T, NB_GEN_SKIPTOK, NB_GEN_SKIP_ONLY, NB_GEN_UNOPT, NB_GEN_NO_NORMAL, NB_GEN_UNOPT_PLUS],
         'assumptions': ['which of 0 / 1 / INHERITED reaches each rule reference is decided by generator code outside the verified set'],
     },
     'C08': {
@@ -208,7 +211,7 @@ PROPS = {
         'verus': ['tracker', 'wrappers'],
         'expanded': False,
         'kani': [],
-        'native': [NB_GEN, NB_GEN_T, NB_GEN_SKIPTOK, NB_GEN_SKIP_ONLY, NB_GEN_UNOPT],
+        'native': [NB_GEN, NB_GEN_T, NB_GEN_SKIPTOK, NB_GEN_SKIP_ONLY, NB_GEN_UNOPT, NB_GEN_NO_NORMAL, NB_GEN_NO_NORMAL],
         'assumptions': ['contracts of Tracker::clear / get_entry / record are assumed (BTreeMap has no vstd model)',
                         'truthfulness of expected/unexpected rule lists is decided only within the bound of nb_gen, with rules re-run in the default context'],
     },
@@ -269,7 +272,7 @@ PROPS = {
         'verus': [],
         'expanded': False,
         'kani': [],
-        'native': [NB_GEN, NB_GEN_T, NB_GEN_SKIPTOK, NB_GEN_SKIP_ONLY, NB_GEN_UNOPT],
+        'native': [NB_GEN, NB_GEN_T, NB_GEN_SKIPTOK, NB_GEN_SKIP_ONLY, NB_GEN_UNOPT, NB_GEN_NO_NORMAL, NB_GEN_NO_NORMAL],
         'explanation': 'The traversal helpers are run on the real tree of every accepted (rule, input) pair within the bound and compared with a recursive reference traversal written in the test.',
         'assumptions': [],
     },
@@ -314,7 +317,7 @@ PROPS = {
         ],
         'native': [
             ('nb_peg', 'nb_acc_rep', 'iter_matched / into_iter_matched / iter_all of RepMin and RepMinMax on all strings<=7 chars over {a,b,space}', 'q'),
-            NB_LEAF,
+            NB_LEAF, NB_BUILTIN_ALT,
         ],
         'assumptions': ['match_choices! (generator crate proc macro) is outside the verified set'],
     },
